@@ -319,6 +319,10 @@ func c04Run(c *fw.Ctx) error {
 			maps = append(maps, fromJSONText(h))
 		}
 	}
+	// keys that would be patterns for the path matcher: in a merge they are the names of entries
+	for _, h := range []string{`{"a*": 1, "ab": null}`, `{"ab": 1, "ac": "s"}`, `{"a?": [1], "*": null}`, `{"a": {"b*": 1, "bc": "s"}}`, `{"a": {"*": [1]}}`} {
+		maps = append(maps, fromJSONText(h))
+	}
 	c.Res.Bound = fmt.Sprintf("all ordered pairs of %d maps (<= %d nodes, depth <= 3, keys a b c, leaves null 1 \"s\" and sequences) x 16 flag subsets (binary form on operands under keys, root form on whole documents (literal right operand; two documents evaluated together; quick: maps of <= 2 nodes and the hand-written deeper shapes), operand immutability, identities); 9 hand-written documents whose operands hold anchors, aliases, merge keys and anchor names defined again x 16 flag subsets x 4 expressions (node graph unchanged; merging with {} reads as the operand; keys the other operand does not mention read the same in the result); reduce form: all pairs and triples of %d maps (<= %d nodes) x 16 flags", len(maps), n, len(small), sn)
 	var idx int64
 	emit := func(cs c04Case, order int64) {
